@@ -98,6 +98,13 @@ Fixpoint reply_eqb (a b : reply) : bool :=
   | _, _ => false
   end.
 
+(* The model is parameterised by a dialect.  [Redis] is the reference semantics.  [AsBuilt] is
+   the reference with the deviations of the current implementation that could not be repaired
+   because tests of the repository pin them (known findings C01-getset-keeps-ttl and
+   C01-getrange-negative-order); it is what the correspondence check runs.  The two dialects
+   differ only on the class [known_dev] below; every theorem is proved for both. *)
+Inductive dialect := Redis | AsBuilt.
+
 (* ------------------------------------------------------------------ integers <-> decimal text *)
 
 Definition I64MAX : Z := 9223372036854775807.
@@ -263,11 +270,11 @@ Definition c_append (v : list N) (oe : option (value * option N)) :=
   | Some _ => (oe, RErr EWrongType)
   end.
 
-(* GETSET = SET key value GET: the TTL is discarded *)
-Definition c_getset (v : list N) (oe : option (value * option N)) :=
+(* GETSET = SET key value GET: the TTL is discarded (as built: it is kept) *)
+Definition c_getset (dl : dialect) (v : list N) (oe : option (value * option N)) :=
   match oe with
   | None => (Some (VStr v, None), RNil)
-  | Some (VStr b, _) => (Some (VStr v, None), RB b)
+  | Some (VStr b, d) => (Some (VStr v, match dl with Redis => None | AsBuilt => d end), RB b)
   | Some _ => (oe, RErr EWrongType)
   end.
 
@@ -278,10 +285,12 @@ Definition c_strlen (oe : option (value * option N)) :=
   | Some _ => (oe, RErr EWrongType)
   end.
 
-(* t_string.c getrangeCommand *)
-Definition getrange (b : list N) (start stop : Z) : list N :=
+(* t_string.c getrangeCommand (as built: two negative indices in the wrong order are not
+   refused, so after clamping they can select the first byte) *)
+Definition getrange (dl : dialect) (b : list N) (start stop : Z) : list N :=
   let len := zlen b in
-  if (start <? 0) && (stop <? 0) && (start >? stop) then [] else
+  if match dl with Redis => (start <? 0) && (stop <? 0) && (start >? stop) | AsBuilt => false end
+  then [] else
   let s := if start <? 0 then len + start else start in
   let e := if stop <? 0 then len + stop else stop in
   let s := Z.max s 0 in
@@ -290,10 +299,10 @@ Definition getrange (b : list N) (start stop : Z) : list N :=
   if (s >? e) || (len =? 0) then []
   else take (Z.to_nat (e - s + 1)) (drop (Z.to_nat s) b).
 
-Definition c_getrange (start stop : Z) (oe : option (value * option N)) :=
+Definition c_getrange (dl : dialect) (start stop : Z) (oe : option (value * option N)) :=
   match oe with
   | None => (oe, RB [])
-  | Some (VStr b, _) => (oe, RB (getrange b start stop))
+  | Some (VStr b, _) => (oe, RB (getrange dl b start stop))
   | Some _ => (oe, RErr EWrongType)
   end.
 
@@ -910,16 +919,16 @@ Definition cmd_reject (c : cmd) : option ekind :=
   end.
 
 (* the single-key commands: their key and their function on the entry at that key *)
-Definition key_fun (now : N) (c : cmd) :
+Definition key_fun (dl : dialect) (now : N) (c : cmd) :
     option (list N * (option (value * option N) -> option (value * option N) * reply)) :=
   match c with
   | Get k => Some (k, c_get)
   | SetC k v x nx xx get => Some (k, c_set now v x nx xx get)
   | SetNx k v => Some (k, c_setnx v)
   | Append k v => Some (k, c_append v)
-  | GetSet k v => Some (k, c_getset v)
+  | GetSet k v => Some (k, c_getset dl v)
   | StrLen k => Some (k, c_strlen)
-  | GetRange k a b => Some (k, c_getrange a b)
+  | GetRange k a b => Some (k, c_getrange dl a b)
   | SetRange k off v => Some (k, c_setrange off v)
   | GetEx k x => Some (k, c_getex now x)
   | GetDel k => Some (k, c_getdel)
@@ -1003,11 +1012,11 @@ Definition cmd_keys (c : cmd) : option (list (list N)) :=
   | MSet kvs | MSetNx kvs => Some (map fst kvs)
   | Rename a b | RenameNx a b | RPopLPush a b | LMove a b _ _ => Some [a; b]
   | Keys | DbSize | FlushDb | FlushAll => None
-  | _ => match key_fun 0%N c with Some (k, _) => Some [k] | None => Some [] end
+  | _ => match key_fun Redis 0%N c with Some (k, _) => Some [k] | None => Some [] end
   end.
 
-Definition exec_wf (s : state) (now : N) (c : cmd) : state * reply :=
-  match key_fun now c with
+Definition exec_wf (dl : dialect) (s : state) (now : N) (c : cmd) : state * reply :=
+  match key_fun dl now c with
   | Some (k, f) => on_key s k f
   | None =>
       match c with
@@ -1030,10 +1039,24 @@ Definition exec_wf (s : state) (now : N) (c : cmd) : state * reply :=
   end.
 
 (* one command at clock reading [now] *)
-Definition exec (s : state) (now : N) (c : cmd) : state * reply :=
+Definition exec (dl : dialect) (s : state) (now : N) (c : cmd) : state * reply :=
   match cmd_reject c with
   | Some e => (s, RErr e)
-  | None => exec_wf s now c
+  | None => exec_wf dl s now c
+  end.
+
+(* the class of (state, command) pairs on which the implementation as built is known to deviate
+   from Redis: GETSET of a string that has a TTL; GETRANGE of a non-empty string with two
+   negative indices in the wrong order *)
+Definition known_dev (s : state) (c : cmd) : bool :=
+  match c with
+  | GetSet k _ => match s !! k with Some (VStr _, Some _) => true | _ => false end
+  | GetRange k a b =>
+      match s !! k with
+      | Some (VStr (_ :: _), _) => (a <? 0) && (b <? 0) && (a >? b)
+      | _ => false
+      end
+  | _ => false
   end.
 
 (* ------------------------------------------------------------------ runs *)
@@ -1042,14 +1065,14 @@ Inductive op :=
 | OTick (t : N)          (* the clock is set to t (CommandExecutor::set_time) *)
 | OCmd (c : cmd).
 
-Definition step (st : state * N) (o : op) : state * N :=
+Definition step (dl : dialect) (st : state * N) (o : op) : state * N :=
   match o with
   | OTick t => (advance st.1 t, t)
-  | OCmd c => ((exec st.1 st.2 c).1, st.2)
+  | OCmd c => ((exec dl st.1 st.2 c).1, st.2)
   end.
 
-Definition run_from (st : state * N) (ops : list op) : state * N := fold_left step ops st.
-Definition run (ops : list op) : state * N := run_from (∅, 0%N) ops.
+Definition run_from (dl : dialect) (st : state * N) (ops : list op) : state * N := fold_left (step dl) ops st.
+Definition run (dl : dialect) (ops : list op) : state * N := run_from dl (∅, 0%N) ops.
 
 (* every reachable state satisfies this *)
 Definition entry_ok (now : N) (e : value * option N) : Prop :=
